@@ -337,6 +337,13 @@ def r4(prog, rep):
     calls = {script.code(n) for n in ast.walk(script.tree) if isinstance(n, ast.Call)}
     ok = canon("tokamak.read_geqdsk(fh, settings=options, nonorthogonal_settings=options)") in calls and canon("BoutMesh(eq, options)") in calls
     rep.ob("R4", "the command-line entry point feeds one option dict to equilibrium, non-orthogonal and mesh options", ok, script.rel, "", key="prov/cli-dict")
+    # the recorded non-orthogonal options are the ones in effect: rule instances of C15.R1
+    from ..report import Premise
+    from ..callgraph import CallGraph
+    from . import c15
+    cg = CallGraph(prog)
+    root = cg.key("hypnotoad/core/mesh.py", "Mesh.redistributePoints")
+    c15.options_reset_rules(prog, cg, cg.reachable([root]), Premise(rep, "R4", "C15"))
 
 
 def cli_factories(script):
